@@ -7,9 +7,10 @@
 (* 1. Character-class table (ASSUMEs, evaluated when TLC starts): for      *)
 (*    every class the form the printer emits either is accepted by the     *)
 (*    JSON grammar / the reader's escape table AND denotes the same        *)
-(*    character, or the class is one of the listed bad classes -- these    *)
-(*    lists are the candidates the named deviations json-string-go-escapes *)
-(*    and escape-not-readable stand for.                                   *)
+(*    character, or the class is one of the listed bad classes.  The JSON  *)
+(*    list is why the encoder must not use the printer for strings (the    *)
+(*    repaired defect json-string-go-escapes); the reader's list is empty  *)
+(*    since the reader accepts every escape the printers emit.             *)
 (*                                                                         *)
 (* 2. Every value v of depth <= 2 with <= 2 children (one of them nested)   *)
 (*    over a palette of scalar classes, arrays, lists, records / hashes    *)
@@ -21,12 +22,16 @@
 (*                    v with swapped fields / another type name / another  *)
 (*                    leaf: JDen is exact                                  *)
 (*      Eq11Refl      equality by value is reflexive and 1.0 = 1           *)
-(*      EncoderAudit  the encoder as designed in the code (the printer's   *)
-(*                    text for scalars and keys) yields well-formed JSON   *)
-(*                    exactly when no trigger of a C11 deviation is in v   *)
-(*      ReaderAudit   printing and reading as designed in the code gives   *)
-(*                    back exactly Same(v, ., "rd", AllDevs); it is the    *)
-(*                    identity exactly when no C12 trigger is in v         *)
+(*      ReservedCollides  a hash with a key named like a reserved member   *)
+(*                    has no denoting text in this protocol (the open      *)
+(*                    finding reserved-member-name-as-key)                 *)
+(*      EncoderAudit  the encoder as designed in the code (JSON string     *)
+(*                    literals for strings, names and keys; null; numbers  *)
+(*                    printed) yields well-formed JSON exactly when no     *)
+(*                    non-finite float is in v                             *)
+(*      ReaderAudit   every string and character leaf is printed in forms  *)
+(*                    the reader's table accepts and that denote it; Same  *)
+(*                    is reflexive                                         *)
 (***************************************************************************)
 EXTENDS Codec
 
@@ -34,15 +39,15 @@ CONSTANTS MaxStr,    \* strings of up to MaxStr character classes
           Deep       \* TRUE: also the values whose second child is the nested one
 
 JsonBadClasses == {"bel", "vt", "c0", "del", "astral_np", "invalid"}
-ZyBadStr == {"bs", "ff", "vt", "c0", "del", "bmp_np", "astral_np", "invalid"}
-ZyBadChr == ZyBadStr \ {"invalid"}
+ZyBadStr == {}
+ZyBadChr == {}
 
 ASSUME \A c \in Classes : JsonBadClass(c) <=> c \in JsonBadClasses
 ASSUME \A c \in Classes \ JsonBadClasses :
           JsonToksDenote(<< PTok(c, ClassRep(c), "str") >>, << ClassRep(c) >>)
 ASSUME \A c \in Classes : ZyBadClass(c, "str") <=> c \in ZyBadStr
 ASSUME \A c \in Classes \ {"invalid"} : ZyBadClass(c, "chr") <=> c \in ZyBadChr
-ASSUME \A c \in Classes \ ZyBadStr : ZyToksDenote(<< PTok(c, ClassRep(c), "str") >>, << ClassRep(c) >>, "str")
+ASSUME \A c \in Classes \ {"invalid"} : ZyToksDenote(<< PTok(c, ClassRep(c), "str") >>, << ClassRep(c) >>, "str")
 ASSUME \A c \in Classes \ (ZyBadChr \cup {"invalid"}) :
           ZyToksDenote(<< PTok(c, ClassRep(c), "chr") >>, << ClassRep(c) >>, "chr")
 (* surrogate pairs: 😀 is U+1F600; an unpaired half denotes nothing *)
@@ -69,8 +74,8 @@ Extra == { <<"bool", TRUE>>, F(<<2, 5>>, 1, FALSE), <<"uint", <<1, 2>>>>, F(<<1>
            <<"chr", 99>>, <<"chr", 233>>, <<"chr", 8>>, <<"sym", <<113>>>>, <<"flt", "inf", 1, <<>>, 0, FALSE>>,
            <<"flt", "nan", 0, <<>>, 0, FALSE>>, <<"flt", "fin", 0, <<>>, 0, FALSE>> }
 Sym(n) == <<"sym", <<n>>>>
-KeySeqs1 == { <<Sym(97)>>, << <<"str", <<116>>>> >>, << <<"str", <<34>>>> >> }
-KeySeqs2 == { <<Sym(122), Sym(97)>>, <<Sym(97), <<"str", <<116>>>> >> }
+KeySeqs1 == { <<Sym(97)>>, << <<"str", <<116>>>> >>, << <<"str", <<34>>>> >>, << <<"sym", AtypeName>> >> }
+KeySeqs2 == { <<Sym(122), Sym(97)>>, <<Sym(97), <<"str", <<116>>>> >>, <<Sym(97), <<"str", ZKeyName>> >> }
 TypeNames == { HashName, <<114, 101, 99>> }
 Hash(tn, ks, vs) == <<"hash", tn, [i \in 1..Len(ks) |-> <<ks[i], vs[i]>>]>>
 
@@ -101,7 +106,8 @@ Spec == Init /\ [][Next]_v
 IsVal == v[1] # "part"
 
 (* ---- kinds of values the two properties speak about ---- *)
-JsonLike(x) == ~Exists(x, LAMBDA y : y[1] \in {"chr", "sym", "list"} \/ (y[1] = "flt" /\ y[2] # "fin"))
+JsonLike(x) == ~Exists(x, LAMBDA y : y[1] \in {"chr", "sym", "list"})
+Plain(x) == JsonLike(x) /\ ~HasNonFinite(x) /\ ~HasReservedKey(x)
 ReadLike(x) == ~Exists(x, LAMBDA y : y[1] = "hash")
 
 (* ---- reference JSON encoding ---- *)
@@ -119,49 +125,36 @@ RefEnc(x) ==
                       \o (IF Len(x[3]) = 0 THEN <<>>
                           ELSE << <<ZKeyName, <<"jarr", [i \in 1..Len(x[3]) |-> Jstr(KeyName(x[3][i][1]))]>> >> >>)>>
 
-RefRoundTrip == (IsVal /\ JsonLike(v)) => JDen(v, RefEnc(v))
+RefRoundTrip == (IsVal /\ Plain(v)) => JDen(v, RefEnc(v))
 Swap(x) == <<"hash", x[2], <<x[3][2], x[3][1]>> \o SubSeq(x[3], 3, Len(x[3]))>>
-OrderMatters == (IsVal /\ JsonLike(v) /\ v[1] = "hash" /\ Len(v[3]) >= 2) => ~JDen(Swap(v), RefEnc(v))
-TypeMatters == (IsVal /\ JsonLike(v) /\ v[1] = "hash") => ~JDen(<<"hash", <<120>>, v[3]>>, RefEnc(v))
-LeafMatters == (IsVal /\ JsonLike(v) /\ v[1] = "arr" /\ Len(v[2]) >= 1) =>
+OrderMatters == (IsVal /\ Plain(v) /\ v[1] = "hash" /\ Len(v[3]) >= 2) => ~JDen(Swap(v), RefEnc(v))
+TypeMatters == (IsVal /\ Plain(v) /\ v[1] = "hash") => ~JDen(<<"hash", <<120>>, v[3]>>, RefEnc(v))
+LeafMatters == (IsVal /\ Plain(v) /\ v[1] = "arr" /\ Len(v[2]) >= 1) =>
                    ~JDen(<<"arr", << <<"str", <<120, 121>>>> >> \o Tail(v[2])>>, RefEnc(v))
-Eq11Refl == (IsVal /\ JsonLike(v)) => /\ Eq11(v, v)
+Eq11Refl == (IsVal /\ Plain(v)) => /\ Eq11(v, v)
                            /\ Eq11(<<"arr", <<F(<<1>>, 1, FALSE), v>>>>, <<"arr", <<<<"int", 1, <<1>>>>, v>>>>)
                            /\ ~Eq11(<<"arr", <<F(<<1, 5>>, 1, FALSE), v>>>>, <<"arr", <<<<"int", 1, <<1>>>>, v>>>>)
 
-(* ---- the encoder as designed in the code: text of scalars and keys is the printer's ---- *)
+ReservedCollides == (IsVal /\ JsonLike(v) /\ ~HasNonFinite(v) /\ HasReservedKey(v)) => ~JDen(v, RefEnc(v))
+
+(* ---- the encoder as designed in the code: JSON string literals for strings, type names and keys,
+        null for nil, digits for integers, a number text for a finite float -- and the words +Inf -Inf
+        NaN for the others ---- *)
 RECURSIVE PWell(_)
 PWell(x) ==
-    CASE x[1] = "nil" -> FALSE                                  \* the word nil is not a JSON literal
-      [] x[1] \in {"bool", "int", "flt"} -> TRUE
-      [] x[1] = "uint" -> FALSE                                 \* 12ULL
-      [] x[1] = "str" -> \A i \in 1..Len(x[2]) : JsonTokOK(PTok(ClassOf(CCRep, x[2][i]), x[2][i], "str"))
+    CASE x[1] \in {"nil", "bool", "int", "uint", "str"} -> TRUE
+      [] x[1] = "flt" -> x[2] = "fin"
       [] x[1] = "arr" -> \A i \in 1..Len(x[2]) : PWell(x[2][i])
-      [] x[1] = "hash" -> \A i \in 1..Len(x[3]) : x[3][i][1][1] = "sym" /\ PWell(x[3][i][2])   \* ""k"" for a string key
-MalformedTrigger(x) == HasNil(x) \/ HasUint(x) \/ HasStrKey(x) \/ HasBadEscape(CCRep, x)
-EncoderAudit == (IsVal /\ JsonLike(v)) => (PWell(v) <=> ~MalformedTrigger(v))
+      [] x[1] = "hash" -> \A i \in 1..Len(x[3]) : PWell(x[3][i][2])
+EncoderAudit == (IsVal /\ JsonLike(v)) => (PWell(v) <=> ~HasNonFinite(v))
 
-(* ---- printing then reading as designed in the code ---- *)
-AllDevs == {"float-prints-without-fraction", "nil-reads-as-symbol", "char-literal-first-byte"}
-LeafUnreadable(x) ==
-    \/ x[1] = "str" /\ \E i \in 1..Len(x[2]) : ~ZyTokOK(PTok(ClassOf(CCRep, x[2][i]), x[2][i], "str"), "str")
-    \/ x[1] = "chr" /\ ~ZyTokOK(PTok(ClassOf(CCRep, x[2]), x[2], "chr"), "chr")
-    \/ PlainFloat(x) /\ ~FitsInt64(NumVal(x))                    \* digits beyond int64
-RECURSIVE PRead(_)
-PRead(x) ==
-    CASE PlainFloat(x) -> LET n == NumVal(x) IN
-                          IF n = Zero THEN <<"int", 0, <<>>>>
-                          ELSE <<"int", n[2], n[3] \o [i \in 1..(n[4] - Len(n[3])) |-> 0]>>
-      [] x[1] = "nil" -> NilSym
-      [] x[1] = "chr" /\ x[2] >= 128 -> <<"chr", FirstByte(x[2])>>
-      [] x[1] \in {"list", "arr"} -> <<x[1], [i \in 1..Len(x[2]) |-> PRead(x[2][i])]>>
-      [] OTHER -> x
-ReadTrigger(x) == HasPlainFloat(x) \/ HasNil(x) \/ HasWideChar(x)
+(* ---- printing then reading: every text leaf is printed in forms the reader's table accepts ---- *)
+LeafReadable(x) ==
+    CASE x[1] = "str" -> ZyToksDenote([i \in 1..Len(x[2]) |-> PTok(ClassOf(CCRep, x[2][i]), x[2][i], "str")], x[2], "str")
+      [] x[1] = "chr" -> ZyToksDenote(<< PTok(ClassOf(CCRep, x[2]), x[2], "chr") >>, << x[2] >>, "chr")
+      [] OTHER -> TRUE
 ReaderAudit ==
-    (IsVal /\ ReadLike(v)) =>
-      IF Exists(v, LeafUnreadable)
-      THEN HasUnreadableEscape(CCRep, v) \/ HasHugePlainFloat(v)
-      ELSE /\ ~HasUnreadableEscape(CCRep, v) /\ ~HasHugePlainFloat(v)
-           /\ Same(v, PRead(v), "rd", AllDevs)
-           /\ Same(v, PRead(v), "rd", {}) <=> ~ReadTrigger(v)
+    (IsVal /\ ReadLike(v)) => /\ ~Exists(v, LAMBDA y : ~LeafReadable(y))
+                              /\ ~HasUnreadableEscape(CCRep, v)
+                              /\ Same(v, v, "rd", {})
 =============================================================================
